@@ -1,10 +1,908 @@
-// Package c03: harness for property C03 (stub until built).
+// Package c03: swaps honour the stated amounts and limits on every route shape.
+// Drives Msg/SwapExactAmountIn|Out and Query/CalculationSwapExactAmountIn|Out of the real
+// application over real liquidity pools; every call of the swap keeper into the
+// liquidity-pool keeper is recorded and handed to the Coq model as its pool oracle.
 package c03
 
-import "fmt"
+import (
+	"fmt"
+	"math/big"
+	"sort"
+	"strings"
+	"time"
 
-// Run generates n cases from seed, runs them on the real application and writes
-// cases_*.v and stats.json into outDir.
+	sdkmath "cosmossdk.io/math"
+	sdk "github.com/cosmos/cosmos-sdk/types"
+
+	lptypes "github.com/sunriselayer/sunrise/x/liquiditypool/types"
+	swapkeeper "github.com/sunriselayer/sunrise/x/swap/keeper"
+	swaptypes "github.com/sunriselayer/sunrise/x/swap/types"
+
+	"verifharness/apph"
+	"verifharness/emit"
+)
+
+// ---------------------------------------------------------------- routes
+
+type rnode struct {
+	kind    string // "pool" "series" "parallel" "none"
+	din     string
+	dout    string
+	pool    uint64
+	kids    []*rnode
+	weights []string
+}
+
+func (n *rnode) toProto() swaptypes.Route {
+	r := swaptypes.Route{DenomIn: n.din, DenomOut: n.dout}
+	switch n.kind {
+	case "pool":
+		r.Strategy = &swaptypes.Route_Pool{Pool: &swaptypes.RoutePool{PoolId: n.pool}}
+	case "series":
+		s := &swaptypes.RouteSeries{}
+		for _, k := range n.kids {
+			s.Routes = append(s.Routes, k.toProto())
+		}
+		r.Strategy = &swaptypes.Route_Series{Series: s}
+	case "parallel":
+		p := &swaptypes.RouteParallel{Weights: append([]string{}, n.weights...)}
+		for _, k := range n.kids {
+			p.Routes = append(p.Routes, k.toProto())
+		}
+		r.Strategy = &swaptypes.Route_Parallel{Parallel: p}
+	}
+	return r
+}
+
+func rawDec(s string) *big.Int { return sdkmath.LegacyMustNewDecFromStr(s).BigInt() }
+
+func (n *rnode) coq() string {
+	di, do := emit.ZI(denomCode(n.din)), emit.ZI(denomCode(n.dout))
+	kids := make([]string, len(n.kids))
+	for i, k := range n.kids {
+		kids[i] = k.coq()
+	}
+	switch n.kind {
+	case "pool":
+		return fmt.Sprintf("(RPool %s %s %d)", di, do, n.pool)
+	case "series":
+		return fmt.Sprintf("(RSeries %s %s %s)", di, do, emit.List(kids))
+	case "parallel":
+		ws := make([]string, len(n.weights))
+		for i, w := range n.weights {
+			ws[i] = emit.Z(rawDec(w))
+		}
+		return fmt.Sprintf("(RParallel %s %s %s %s)", di, do, emit.List(kids), emit.List(ws))
+	}
+	return fmt.Sprintf("(RNone %s %s)", di, do)
+}
+
+func (n *rnode) String() string {
+	switch n.kind {
+	case "pool":
+		return fmt.Sprintf("P%d(%s>%s)", n.pool, n.din, n.dout)
+	case "series", "parallel":
+		ks := make([]string, len(n.kids))
+		for i, k := range n.kids {
+			ks[i] = k.String()
+		}
+		tag := "S"
+		if n.kind == "parallel" {
+			tag = "Par" + fmt.Sprint(n.weights)
+		}
+		return fmt.Sprintf("%s(%s>%s)[%s]", tag, n.din, n.dout, strings.Join(ks, " "))
+	}
+	return fmt.Sprintf("None(%s>%s)", n.din, n.dout)
+}
+
+func (n *rnode) poolIDs(acc *[]uint64) {
+	if n.kind == "pool" {
+		*acc = append(*acc, n.pool)
+	}
+	for _, k := range n.kids {
+		k.poolIDs(acc)
+	}
+}
+func (n *rnode) hops() int {
+	if n.kind == "pool" {
+		return 1
+	}
+	t := 0
+	for _, k := range n.kids {
+		t += k.hops()
+	}
+	return t
+}
+func (n *rnode) depth() int {
+	d := 0
+	for _, k := range n.kids {
+		if x := k.depth(); x > d {
+			d = x
+		}
+	}
+	if n.kind == "pool" || n.kind == "none" {
+		return 0
+	}
+	return d + 1
+}
+func (n *rnode) width() int {
+	w := len(n.kids)
+	for _, k := range n.kids {
+		if x := k.width(); x > w {
+			w = x
+		}
+	}
+	return w
+}
+func (n *rnode) clone() *rnode {
+	c := *n
+	c.kids = nil
+	for _, k := range n.kids {
+		c.kids = append(c.kids, k.clone())
+	}
+	c.weights = append([]string{}, n.weights...)
+	return &c
+}
+func (n *rnode) all(acc *[]*rnode) {
+	*acc = append(*acc, n)
+	for _, k := range n.kids {
+		k.all(acc)
+	}
+}
+
+func treeCoq(t swaptypes.RouteResult) string {
+	hdr := fmt.Sprintf("%d %s %d %s", denomCode(t.TokenIn.Denom), emit.Z(t.TokenIn.Amount.BigInt()), denomCode(t.TokenOut.Denom), emit.Z(t.TokenOut.Amount.BigInt()))
+	list := func(rs []swaptypes.RouteResult) string {
+		ks := make([]string, len(rs))
+		for i := range rs {
+			ks[i] = treeCoq(rs[i])
+		}
+		return emit.List(ks)
+	}
+	switch s := t.Strategy.(type) {
+	case *swaptypes.RouteResult_Pool:
+		return fmt.Sprintf("(RRPool %s %d)", hdr, s.Pool.PoolId)
+	case *swaptypes.RouteResult_Series:
+		return fmt.Sprintf("(RRSeries %s %s)", hdr, list(s.Series.RouteResults))
+	case *swaptypes.RouteResult_Parallel:
+		return fmt.Sprintf("(RRParallel %s %s)", hdr, list(s.Parallel.RouteResults))
+	}
+	return "(RRPool 0 0 0 0 (-1))"
+}
+
+// ---------------------------------------------------------------- world
+
+type poolInfo struct {
+	id          uint64
+	base, quote string
+	live        bool // has positions
+}
+
+type env struct {
+	w        *world
+	h        *apph.H
+	r        *emit.Rand
+	pools    []poolInfo
+	k        swapkeeper.Keeper
+	rec      *recorder
+	msgSrv   swaptypes.MsgServer
+	qSrv     swaptypes.QueryServer
+	lp       sdk.AccAddress
+	rich     sdk.AccAddress
+	provider sdk.AccAddress
+	byst     sdk.AccAddress
+	nPoor    int
+	partial  uint64 // pool with a position down to TICK_MIN
+	partial2 uint64
+	variant  string // Coq term: which code variant of Validate / the queries is running
+	empty    uint64 // pool without positions
+}
+
+func mustInt(s string) sdkmath.Int {
+	v, ok := sdkmath.NewIntFromString(s)
+	if !ok {
+		panic("bad int " + s)
+	}
+	return v
+}
+
+func setup(seed int64) (*env, error) {
+	h := apph.New(apph.Options{NumAccounts: 4})
+	e := &env{h: h, w: newWorld(h), r: emit.NewRand(seed)}
+	e.lp, e.rich, e.provider, e.byst = h.Accts[0].Addr, h.Accts[1].Addr, h.Accts[2].Addr, h.Accts[3].Addr
+	// the provider and the bystander start with little, the amounts they receive stay readable
+	specs := []poolSpec{
+		{"urise", "uusdc", "0.01", "1.0001", "0.5"},
+		{"uusdc", "uatom", "0.003", "1.0001", "0.5"},
+		{"uatom", "uosmo", "0.0005", "1.0001", "0"},
+		{"urise", "uatom", "0.01", "1.0001", "0.5"},
+		{"uusdc", "urise", "0.001", "1.0001", "0.5"}, // same pair as pool 0, other orientation
+		{"uusdc", "uosmo", "0", "1.0001", "0"},
+		{"urise", "uosmo", "0.003", "1.0001", "0.5"},
+		{"urise", "uusdc", "0.01", "1.0001", "0.5"}, // position down to TICK_MIN
+		{"uatom", "uusdc", "0.01", "1.0001", "0.5"}, // stays empty
+		{"urise", "uusdc", "0.01", "1.0001", "0.5"}, // second pool with a position down to TICK_MIN
+	}
+	for i, ps := range specs {
+		id, err := e.w.createPool(ps)
+		if err != nil {
+			return nil, fmt.Errorf("create pool %d: %w", i, err)
+		}
+		e.pools = append(e.pools, poolInfo{id: id, base: ps.base, quote: ps.quote})
+	}
+	coin := func(d string, v int64) sdk.Coin { return sdk.NewInt64Coin(d, v) }
+	for i := 0; i < 7; i++ {
+		p := &e.pools[i]
+		// price around 1, +-20%, so that series hops compose to sane amounts
+		b := int64(800_000_000_000 + e.r.Int63n(400_000_000_000))
+		q := int64(800_000_000_000 + e.r.Int63n(400_000_000_000))
+		if _, err := e.w.createPosition(e.lp, p.id, -6000, 6000, coin(p.base, b), coin(p.quote, q)); err != nil {
+			return nil, fmt.Errorf("position pool %d: %w", i, err)
+		}
+		// a narrower and an off-centre position: swaps of 1e9..1e11 cross initialised ticks
+		lo, hi := int64(-200-e.r.Intn(300)), int64(200+e.r.Intn(300))
+		if _, err := e.w.createPosition(e.lp, p.id, lo, hi, coin(p.base, b/10), coin(p.quote, q/10)); err != nil {
+			return nil, fmt.Errorf("position2 pool %d: %w", i, err)
+		}
+		// one-sided position above the range (rejected when the price already sits above it)
+		_, _ = e.w.createPosition(e.rich, p.id, hi+2000, hi+3500, coin(p.base, b/20), coin(p.quote, 0))
+		p.live = true
+	}
+	// pool 7: small, with a position reaching TICK_MIN (price limit reachable)
+	e.partial = e.pools[7].id
+	if _, err := e.w.createPosition(e.lp, e.partial, -5000, 5000, coin("urise", 1_000_000), coin("uusdc", 1_000_000)); err != nil {
+		return nil, err
+	}
+	if _, err := e.w.createPosition(e.lp, e.partial, -9223372036854775808, -5000, coin("urise", 0), coin("uusdc", 10)); err != nil {
+		return nil, err
+	}
+	e.pools[7].live = true
+	e.empty = e.pools[8].id
+	e.partial2 = e.pools[9].id
+	if _, err := e.w.createPosition(e.lp, e.partial2, -5000, 5000, coin("urise", 1_000_000), coin("uusdc", 1_000_000)); err != nil {
+		return nil, err
+	}
+	if _, err := e.w.createPosition(e.lp, e.partial2, -9223372036854775808, -5000, coin("urise", 0), coin("uusdc", 10)); err != nil {
+		return nil, err
+	}
+	e.pools[9].live = true
+	e.k, e.rec = recordingKeeper(h)
+	e.msgSrv = swapkeeper.NewMsgServerImpl(e.k)
+	e.qSrv = swapkeeper.NewQueryServerImpl(e.k)
+	if _, err := h.NextBlock(time.Second); err != nil {
+		return nil, err
+	}
+	e.probeVariant()
+	return e, nil
+}
+
+// probeVariant asks the running code which variant of Route.Validate and of the calculation
+// queries it is (repairs proposed for C15 change both): a reused pool panics or is an error;
+// the queries validate their input or not.
+func (e *env) probeVariant() {
+	reuse := &rnode{kind: "parallel", din: "urise", dout: "uusdc", kids: []*rnode{pool("urise", "uusdc", 0), pool("urise", "uusdc", 0)}, weights: []string{"1", "1"}}
+	reuseErr := func() (isErr bool) {
+		defer func() {
+			if r := recover(); r != nil {
+				isErr = false
+			}
+		}()
+		rt := reuse.toProto()
+		if err := rt.Validate(); err == nil {
+			panic("Route.Validate accepts a reused pool")
+		}
+		return true
+	}()
+	emptySeries := (&rnode{kind: "series", din: "urise", dout: "urise"}).toProto()
+	q := e.query(false, false, emptySeries, sdkmath.OneInt())
+	e.rec.reset()
+	e.variant = fmt.Sprintf("{| v_reuse_err := %s; v_query_validates := %s |}", emit.Bool(reuseErr), emit.Bool(!q.ok))
+}
+
+func (e *env) setRate(rate string) {
+	ctx := e.h.Ctx()
+	p, err := e.h.App.SwapKeeper.Params.Get(ctx)
+	if err != nil {
+		panic(err)
+	}
+	p.InterfaceFeeRate = sdkmath.LegacyMustNewDecFromStr(rate).String()
+	if err := e.h.App.SwapKeeper.Params.Set(ctx, p); err != nil {
+		panic(err)
+	}
+}
+
+// poolsBetween lists live pools (of the first seven) trading the two denoms, not yet used.
+func (e *env) poolsBetween(a, b string, used map[uint64]bool) []uint64 {
+	var out []uint64
+	for _, p := range e.pools[:7] {
+		if used[p.id] {
+			continue
+		}
+		if (p.base == a && p.quote == b) || (p.base == b && p.quote == a) {
+			out = append(out, p.id)
+		}
+	}
+	return out
+}
+
+var weightChoices = []string{"1", "1", "1", "0.333333333333333333", "0.333333333333333333", "0.000000000000000001", "1000000000000000000", "2", "0.5", "3"}
+
+func (e *env) randWeight() string {
+	if e.r.Chance(1, 3) {
+		// random weight between 0.01 and 100 with 18 decimals (extremes come from the fixed choices)
+		raw := new(big.Int).Add(e.r.LogUniform(20), big.NewInt(10_000_000_000_000_000))
+		return sdkmath.LegacyNewDecFromBigIntWithPrec(raw, 18).String()
+	}
+	return emit.Pick(e.r, weightChoices...)
+}
+
+// genRoute builds a valid route din -> dout using pools not in used (which it extends).
+func (e *env) genRoute(din, dout string, depth int, used map[uint64]bool) *rnode {
+	for attempt := 0; attempt < 6; attempt++ {
+		snapshot := map[uint64]bool{}
+		for k, v := range used {
+			snapshot[k] = v
+		}
+		var n *rnode
+		choice := e.r.Intn(10)
+		switch {
+		case depth == 0 || choice < 2:
+			if din != dout {
+				if ps := e.poolsBetween(din, dout, used); len(ps) > 0 {
+					id := ps[e.r.Intn(len(ps))]
+					used[id] = true
+					n = &rnode{kind: "pool", din: din, dout: dout, pool: id}
+				}
+			}
+		case choice < 7:
+			hops := 2 + e.r.Intn(2)
+			if e.r.Chance(1, 8) {
+				hops = 1
+			}
+			n = &rnode{kind: "series", din: din, dout: dout}
+			cur := din
+			for i := 0; i < hops; i++ {
+				next := dout
+				if i < hops-1 {
+					next = denoms[e.r.Intn(len(denoms))]
+					if next == cur {
+						next = denoms[(denomCode(cur))%4]
+					}
+				}
+				if next == cur {
+					n = nil
+					break
+				}
+				k := e.genRoute(cur, next, depth-1, used)
+				if k == nil {
+					n = nil
+					break
+				}
+				n.kids = append(n.kids, k)
+				cur = next
+			}
+		default:
+			br := 1 + e.r.Intn(3)
+			n = &rnode{kind: "parallel", din: din, dout: dout}
+			for i := 0; i < br; i++ {
+				k := e.genRoute(din, dout, depth-1, used)
+				if k == nil {
+					if i >= 1 {
+						break
+					}
+					n = nil
+					break
+				}
+				n.kids = append(n.kids, k)
+				n.weights = append(n.weights, e.randWeight())
+			}
+		}
+		if n != nil {
+			return n
+		}
+		for k := range used {
+			if !snapshot[k] {
+				delete(used, k)
+			}
+		}
+	}
+	return nil
+}
+
+// mutate turns a valid route into a (mostly) invalid one; returns a tag.
+func (e *env) mutate(n *rnode) string {
+	var nodes []*rnode
+	n.all(&nodes)
+	pick := func(kind string) *rnode {
+		var c []*rnode
+		for _, x := range nodes {
+			if x.kind == kind {
+				c = append(c, x)
+			}
+		}
+		if len(c) == 0 {
+			return nil
+		}
+		return c[e.r.Intn(len(c))]
+	}
+	switch e.r.Intn(11) {
+	case 0: // reuse a pool: Validate panics
+		var ps []*rnode
+		for _, x := range nodes {
+			if x.kind == "pool" {
+				ps = append(ps, x)
+			}
+		}
+		if len(ps) >= 2 {
+			ps[len(ps)-1].pool = ps[0].pool
+			return "reuse"
+		}
+		x := ps[0].clone()
+		*n = rnode{kind: "parallel", din: n.din, dout: n.dout, kids: []*rnode{n.clone(), x}, weights: []string{"1", "1"}}
+		if x.din != n.din || x.dout != n.dout {
+			return "reuse+denoms"
+		}
+		return "reuse"
+	case 1:
+		if s := pick("series"); s != nil {
+			s.kids = nil
+			return "empty-series"
+		}
+	case 2:
+		if p := pick("parallel"); p != nil {
+			p.weights = append(p.weights, "1")
+			return "weights-length"
+		}
+	case 3:
+		if p := pick("parallel"); p != nil {
+			p.weights[e.r.Intn(len(p.weights))] = emit.Pick(e.r, "0", "-1", "-0.000000000000000001")
+			return "weight-nonpositive"
+		}
+	case 4:
+		x := nodes[e.r.Intn(len(nodes))]
+		x.kind, x.kids, x.weights = "none", nil, nil
+		return "nil-strategy"
+	case 5:
+		if p := pick("pool"); p != nil {
+			p.pool = 99 + uint64(e.r.Intn(3))
+			return "unknown-pool"
+		}
+	case 6:
+		if p := pick("pool"); p != nil {
+			p.pool = e.empty
+			return "empty-pool"
+		}
+	case 7: // a hop whose denoms the pool does not trade
+		if p := pick("pool"); p != nil {
+			for _, q := range e.pools[:7] {
+				if !((q.base == p.din && q.quote == p.dout) || (q.base == p.dout && q.quote == p.din)) {
+					p.pool = q.id
+					break
+				}
+			}
+			return "wrong-pool"
+		}
+	case 8: // broken denom chain
+		if s := pick("series"); s != nil && len(s.kids) > 0 {
+			k := s.kids[e.r.Intn(len(s.kids))]
+			k.din = denoms[(denomCode(k.din))%4]
+			return "series-denoms"
+		}
+	case 9:
+		if p := pick("parallel"); p != nil {
+			k := p.kids[e.r.Intn(len(p.kids))]
+			k.dout = denoms[(denomCode(k.dout))%4]
+			return "parallel-denoms"
+		}
+	case 10:
+		if p := pick("parallel"); p != nil {
+			p.kids, p.weights = nil, nil
+			return "empty-parallel"
+		}
+	}
+	n.dout = denoms[(denomCode(n.dout))%4]
+	return "root-denom"
+}
+
+// ---------------------------------------------------------------- one case
+
+type caseSpec struct {
+	tag      string
+	out      bool
+	route    *rnode
+	amount   sdkmath.Int
+	limit    *sdkmath.Int // nil: derived from the quote by limitMode
+	limitMod int          // 0 exact quote, 1 fails by one, 2 loose, 3 one inside
+	provider bool
+	rate     string
+	poor     int // 0 rich sender; 1 exactly funded; 2 one short; 3 generously funded (input denom only)
+	fund     *sdkmath.Int
+}
+
+func (e *env) balRows(ctx sdk.Context, sender sdk.AccAddress, pools []uint64) []string {
+	var rows []string
+	add := func(code int64, a sdk.AccAddress) {
+		for _, d := range denoms {
+			rows = append(rows, emit.Tuple(emit.ZI(code), emit.ZI(denomCode(d)), emit.Z(e.h.Bal(ctx, a, d).BigInt())))
+		}
+	}
+	add(1, sender)
+	add(2, e.provider)
+	add(3, e.byst)
+	for _, p := range pools {
+		add(1000+2*int64(p), lptypes.NewPoolAddress(p))
+		add(1001+2*int64(p), lptypes.NewPoolFeesAddress(p))
+	}
+	return rows
+}
+
+func kindCode(k string) int64 {
+	switch k {
+	case "QI":
+		return 1
+	case "QO":
+		return 2
+	case "XI":
+		return 3
+	}
+	return 4
+}
+
+func zOr0(x sdkmath.Int) string {
+	if x.IsNil() {
+		return "0"
+	}
+	return emit.Z(x.BigInt())
+}
+
+func (e *env) tableCoq() []string {
+	out := make([]string, len(e.rec.calls))
+	for i, c := range e.rec.calls {
+		res := "0"
+		if c.Err == 0 {
+			res = zOr0(c.Result)
+		}
+		out[i] = fmt.Sprintf("HO %d %d %d %d %s %s %s %s %s", kindCode(c.Kind), c.Pool, denomCode(c.DenomIn), denomCode(c.DenomOut),
+			zOr0(c.Amount), emit.ZI(c.Err), res, zOr0(c.Debit), zOr0(c.Credit))
+	}
+	return out
+}
+
+type obsResp struct {
+	ok    bool
+	tree  swaptypes.RouteResult
+	fee   sdkmath.Int
+	amt   sdkmath.Int
+	class int64
+	msg   string
+}
+
+func (o obsResp) coq() string {
+	if o.ok {
+		return fmt.Sprintf("(Ok (%s, %s, %s))", treeCoq(o.tree), emit.Z(o.fee.BigInt()), emit.Z(o.amt.BigInt()))
+	}
+	if o.class == -1 {
+		return "Panic"
+	}
+	return fmt.Sprintf("(Err %s)", emit.ZI(o.class))
+}
+
+func (e *env) query(out bool, has bool, route swaptypes.Route, amount sdkmath.Int) (o obsResp) {
+	defer func() {
+		if r := recover(); r != nil {
+			o = obsResp{class: -1, msg: fmt.Sprint(r)}
+		}
+	}()
+	ctx, _ := e.h.Ctx().CacheContext()
+	if out {
+		r, err := e.qSrv.CalculationSwapExactAmountOut(ctx, &swaptypes.QueryCalculationSwapExactAmountOutRequest{HasInterfaceFee: has, Route: &route, AmountOut: amount.String()})
+		if err != nil {
+			return obsResp{class: errClass(err), msg: err.Error()}
+		}
+		return obsResp{ok: true, tree: r.Result, fee: r.InterfaceProviderFee, amt: r.AmountIn}
+	}
+	r, err := e.qSrv.CalculationSwapExactAmountIn(ctx, &swaptypes.QueryCalculationSwapExactAmountInRequest{HasInterfaceFee: has, Route: &route, AmountIn: amount.String()})
+	if err != nil {
+		return obsResp{class: errClass(err), msg: err.Error()}
+	}
+	return obsResp{ok: true, tree: r.Result, fee: r.InterfaceProviderFee, amt: r.AmountOut}
+}
+
+func (e *env) newPoor() sdk.AccAddress {
+	e.nPoor++
+	b := make([]byte, 20)
+	copy(b, []byte(fmt.Sprintf("c03-poor-%08d", e.nPoor)))
+	return sdk.AccAddress(b)
+}
+
+// runCase executes one case and returns the Coq term, the replay info and the outcome.
+func (e *env) runCase(cs caseSpec) (string, map[string]any, obsResp) {
+	e.setRate(cs.rate)
+	route := cs.route.toProto()
+	info := map[string]any{"tag": cs.tag, "exact_out": cs.out, "route": cs.route.String(), "amount": cs.amount.String(),
+		"provider": cs.provider, "fee_rate": cs.rate, "poor_sender": cs.poor}
+	// unrecorded look at the quote: used to place the limit and to fund a poor sender
+	e.rec.reset()
+	pre := e.query(cs.out, cs.provider, route, cs.amount)
+	var limit sdkmath.Int
+	if cs.limit != nil {
+		limit = *cs.limit
+	} else {
+		q := sdkmath.NewInt(1000)
+		if pre.ok {
+			q = pre.amt // exact-in: net amount out; exact-out: amount in
+		}
+		switch cs.limitMod {
+		case 0:
+			limit = q
+		case 1:
+			if cs.out {
+				limit = q.SubRaw(1)
+			} else {
+				limit = q.AddRaw(1)
+			}
+		case 2:
+			if cs.out {
+				limit = q.MulRaw(3).AddRaw(7)
+			} else {
+				limit = sdkmath.OneInt()
+			}
+		default:
+			if cs.out {
+				limit = q.AddRaw(1)
+			} else {
+				limit = q.SubRaw(1)
+			}
+		}
+	}
+	info["limit"] = limit.String()
+	sender := e.rich
+	if cs.poor > 0 {
+		sender = e.newPoor()
+		need := cs.amount
+		if cs.out {
+			need = sdkmath.NewInt(1_000_000)
+			if pre.ok {
+				need = pre.amt
+			}
+		}
+		switch cs.poor {
+		case 2:
+			need = need.SubRaw(1)
+		case 3:
+			need = need.MulRaw(2).AddRaw(5)
+		}
+		if cs.fund != nil {
+			need = *cs.fund
+		}
+		if need.IsPositive() {
+			if err := e.h.App.BankKeeper.SendCoins(e.h.Ctx(), e.lp, sender, sdk.NewCoins(sdk.NewCoin(cs.route.din, need))); err != nil {
+				panic(err)
+			}
+		}
+		info["funded"] = need.String() + cs.route.din
+	}
+	var ids []uint64
+	cs.route.poolIDs(&ids)
+	sort.Slice(ids, func(i, j int) bool { return ids[i] < ids[j] })
+	var found, uniq []uint64
+	for i, id := range ids {
+		if i > 0 && ids[i-1] == id {
+			continue
+		}
+		uniq = append(uniq, id)
+		if _, ok, err := e.h.App.LiquiditypoolKeeper.GetPool(e.h.Ctx(), id); err == nil && ok {
+			found = append(found, id)
+		}
+	}
+	_ = uniq
+	// the recorded run: query on the pre-state, then the message as a transaction
+	e.rec.reset()
+	preRows := e.balRows(e.h.Ctx(), sender, found)
+	qobs := e.query(cs.out, cs.provider, route, cs.amount)
+	prov := ""
+	if cs.provider {
+		prov = e.provider.String()
+	}
+	var mobs obsResp
+	err := apph.Tx(e.h.Ctx(), func(ctx sdk.Context) error {
+		if cs.out {
+			r, er := e.msgSrv.SwapExactAmountOut(ctx, &swaptypes.MsgSwapExactAmountOut{Sender: sender.String(), InterfaceProvider: prov, Route: route, MaxAmountIn: limit, AmountOut: cs.amount})
+			if er == nil {
+				mobs = obsResp{ok: true, tree: r.Result, fee: r.InterfaceProviderFee, amt: r.AmountOut}
+			}
+			return er
+		}
+		r, er := e.msgSrv.SwapExactAmountIn(ctx, &swaptypes.MsgSwapExactAmountIn{Sender: sender.String(), InterfaceProvider: prov, Route: route, AmountIn: cs.amount, MinAmountOut: limit})
+		if er == nil {
+			mobs = obsResp{ok: true, tree: r.Result, fee: r.InterfaceProviderFee, amt: r.AmountOut}
+		}
+		return er
+	})
+	if err != nil {
+		mobs = obsResp{class: errClass(err), msg: err.Error()}
+	}
+	postRows := e.balRows(e.h.Ctx(), sender, found)
+	fl := make([]string, len(found))
+	for i, id := range found {
+		fl[i] = fmt.Sprint(id)
+	}
+	term := fmt.Sprintf("{| c_out := %s; c_route := %s; c_amount := %s; c_limit := %s; c_prov := %s; c_rate := %s;\n     c_found := %s; c_table := %s;\n     c_pre := %s;\n     c_post := %s;\n     c_msg := %s;\n     c_query := %s;\n     c_variant := %s |}",
+		emit.Bool(cs.out), cs.route.coq(), emit.Z(cs.amount.BigInt()), emit.Z(limit.BigInt()), emit.Bool(cs.provider), emit.Z(rawDec(cs.rate)),
+		emit.List(fl), emit.List(e.tableCoq()), emit.List(preRows), emit.List(postRows), mobs.coq(), qobs.coq(), e.variant)
+	if mobs.ok {
+		info["result"] = fmt.Sprintf("in %s out %s fee %s amount_out %s", mobs.tree.TokenIn, mobs.tree.TokenOut, mobs.fee, mobs.amt)
+	} else {
+		info["error"] = mobs.msg
+		info["class"] = mobs.class
+	}
+	if qobs.ok {
+		info["query"] = fmt.Sprintf("in %s out %s fee %s amount %s", qobs.tree.TokenIn, qobs.tree.TokenOut, qobs.fee, qobs.amt)
+	} else {
+		info["query_error"] = qobs.msg
+	}
+	hops := make([]string, len(e.rec.calls))
+	for i, c := range e.rec.calls {
+		hops[i] = fmt.Sprintf("%s pool %d %s>%s amount %s -> %s err %d debit %s credit %s", c.Kind, c.Pool, c.DenomIn, c.DenomOut, c.Amount, c.Result, c.Err, c.Debit, c.Credit)
+	}
+	info["pool_calls"] = hops
+	return term, info, mobs
+}
+
+// ---------------------------------------------------------------- generator
+
+var rateChoices = []string{"0.01", "0.01", "0", "0.003", "0.5", "0.999999999999999999", "0.000000000000000001"}
+
+func (e *env) genCase() caseSpec {
+	r := e.r
+	cs := caseSpec{tag: "gen", out: r.Bool(), provider: r.Chance(1, 2), rate: emit.Pick(r, rateChoices...)}
+	if r.Chance(1, 60) {
+		cs.rate = "1" // accepted by Params.Validate; exact-out with a provider divides by zero
+	}
+	din := denoms[r.Intn(4)]
+	dout := denoms[r.Intn(4)]
+	if din == dout && !r.Chance(1, 10) {
+		dout = denoms[denomCode(din)%4]
+	}
+	depth := emit.Pick(r, 0, 1, 1, 1, 2, 2, 2, 3, 3)
+	var n *rnode
+	for try := 0; try < 20 && n == nil; try++ {
+		n = e.genRoute(din, dout, depth, map[uint64]bool{})
+		if n == nil {
+			if depth == 0 {
+				depth = 1
+			}
+			if din == dout {
+				dout = denoms[denomCode(din)%4]
+			}
+		}
+	}
+	if n == nil {
+		n = &rnode{kind: "pool", din: "urise", dout: "uusdc", pool: 0}
+	}
+	cs.route = n
+	// amounts: mostly within the liquidity of the pools (~1e12), sometimes tiny or far too large
+	switch r.Intn(16) {
+	case 0:
+		cs.amount = sdkmath.NewInt(int64(1 + r.Intn(5)))
+	case 1:
+		cs.amount = sdkmath.NewIntFromBigInt(r.LogUniform(30))
+	case 2:
+		cs.amount = sdkmath.NewIntFromBigInt(r.LogUniform(13))
+	default:
+		cs.amount = sdkmath.NewIntFromBigInt(r.LogUniform(11)).AddRaw(int64(r.Intn(1000)))
+	}
+	cs.limitMod = emit.Pick(r, 0, 0, 0, 1, 2, 2, 3, 3)
+	cs.poor = emit.Pick(r, 0, 0, 1, 1, 1, 2, 3, 3)
+	// malformed stream
+	if r.Chance(1, 8) {
+		cs.tag = "mut:" + e.mutate(n)
+	} else if r.Chance(1, 25) {
+		cs.tag = "mut:amount"
+		cs.amount = sdkmath.NewInt(int64(-r.Intn(3)))
+	} else if r.Chance(1, 25) {
+		cs.tag = "mut:limit"
+		z := sdkmath.NewInt(int64(-r.Intn(3)))
+		cs.limit = &z
+	}
+	return cs
+}
+
+func pool(din, dout string, id uint64) *rnode {
+	return &rnode{kind: "pool", din: din, dout: dout, pool: id}
+}
+
+// corpus: witnesses of the repaired defects and a few fixed shapes; always run first.
+func (e *env) corpus() []caseSpec {
+	i := func(v int64) sdkmath.Int { return sdkmath.NewInt(v) }
+	one := i(1)
+	huge := mustInt("100000000000000000000000000000000")
+	par11 := &rnode{kind: "parallel", din: "urise", dout: "uusdc", kids: []*rnode{pool("urise", "uusdc", 0), pool("urise", "uusdc", 4)}, weights: []string{"1", "1"}}
+	ser2 := &rnode{kind: "series", din: "urise", dout: "uatom", kids: []*rnode{pool("urise", "uusdc", 0), pool("uusdc", "uatom", 1)}}
+	ser3 := &rnode{kind: "series", din: "urise", dout: "uosmo", kids: []*rnode{pool("urise", "uusdc", 0), pool("uusdc", "uatom", 1), pool("uatom", "uosmo", 2)}}
+	tiny := &rnode{kind: "parallel", din: "urise", dout: "uusdc", kids: []*rnode{pool("urise", "uusdc", 0), pool("urise", "uusdc", 4)}, weights: []string{"0.000000000000000001", "1"}}
+	nested := &rnode{kind: "parallel", din: "urise", dout: "uatom", kids: []*rnode{
+		{kind: "series", din: "urise", dout: "uatom", kids: []*rnode{par11.clone(), pool("uusdc", "uatom", 1)}},
+		pool("urise", "uatom", 3),
+		{kind: "series", din: "urise", dout: "uatom", kids: []*rnode{pool("urise", "uosmo", 6), pool("uosmo", "uatom", 2)}},
+	}, weights: []string{"0.333333333333333333", "1", "2"}}
+	return []caseSpec{
+		// defect 1 (parallel split never accumulated): 100 over 1:1 must be 50 + 50
+		{tag: "corpus:parallel-1:1-exact-in", route: par11.clone(), amount: i(100_000), limit: &one, rate: "0.01", provider: true, poor: 1},
+		{tag: "corpus:parallel-1:1-exact-out", out: true, route: par11.clone(), amount: i(100_000), limitMod: 0, rate: "0.01", provider: true, poor: 1},
+		// defect 2 (exact-out series executed last hop first): sender holds only the input denom
+		{tag: "corpus:series2-exact-out-poor", out: true, route: ser2.clone(), amount: i(1_000_000), limitMod: 0, rate: "0", poor: 1},
+		{tag: "corpus:series3-exact-out-poor", out: true, route: ser3.clone(), amount: i(777_777), limitMod: 3, rate: "0.003", provider: true, poor: 1},
+		{tag: "corpus:series3-exact-in-poor", route: ser3.clone(), amount: i(1_000_000), limitMod: 0, rate: "0.01", provider: true, poor: 1},
+		// defect 3 (partial fill at the price limit)
+		{tag: "corpus:partial-fill-exact-in", route: pool("urise", "uusdc", e.partial), amount: huge, limit: &one, rate: "0.01", poor: 0},
+		{tag: "corpus:partial-fill-exact-out", out: true, route: pool("urise", "uusdc", e.partial2), amount: i(5_000_000), limit: &huge, rate: "0.01", poor: 0},
+		// a branch whose share truncates to zero: the quote exists, the execution refuses
+		{tag: "corpus:zero-share", route: tiny, amount: i(1000), limit: &one, rate: "0.01", poor: 0},
+		{tag: "corpus:nested", route: nested.clone(), amount: i(123_456_789), limitMod: 0, rate: "0.01", provider: true, poor: 1},
+		{tag: "corpus:nested-exact-out", out: true, route: nested.clone(), amount: i(98_765_432), limitMod: 0, rate: "0.5", provider: true, poor: 1},
+		{tag: "corpus:fee-rate-one-exact-out", out: true, route: pool("urise", "uusdc", 0), amount: i(1000), limit: &huge, rate: "1", provider: true},
+		{tag: "corpus:fee-rate-one-exact-in", route: pool("urise", "uusdc", 0), amount: i(1000), limit: &one, rate: "1", provider: true},
+	}
+}
+
+// Run generates n cases (plus the fixed corpus) and writes cases + stats into outDir.
 func Run(seed int64, n int, outDir string) error {
-	return fmt.Errorf("c03: harness not built yet")
+	e, err := setup(seed)
+	if err != nil {
+		return err
+	}
+	defer e.h.Close()
+	st0 := e.variant
+	st := emit.NewStats("C03", seed, "one case = one real Msg/SwapExactAmountIn|Out (plus the matching query on the pre-state) over real pools with traded state; non-trivial when the route has >= 2 pool hops and the message succeeded, distinct by (direction, root strategy, depth, width, hops, provider, poor sender)")
+	cf := &emit.CasesFile{Import: "Swap.C03Check", Runner: "run", Type: "c03_case"}
+	st.Extra["code_variant"] = st0
+	do := func(cs caseSpec) {
+		term, info, m := e.runCase(cs)
+		cf.Add(term)
+		st.Info(info)
+		st.Evaluations++
+		dir := "in"
+		if cs.out {
+			dir = "out"
+		}
+		kind := "gen"
+		if strings.HasPrefix(cs.tag, "corpus") {
+			kind = "corpus"
+		} else if strings.HasPrefix(cs.tag, "mut") {
+			kind = cs.tag
+		}
+		st.Count("kind:" + kind)
+		if m.ok {
+			st.Count(dir + ":ok")
+			if cs.provider && m.fee.IsPositive() {
+				st.Count("ok:interface-fee>0")
+			}
+			if cs.poor > 0 {
+				st.Count("ok:sender-holds-only-input")
+			}
+			st.Count(fmt.Sprintf("shape:%s/d%d", cs.route.kind, cs.route.depth()))
+			if cs.route.hops() >= 2 {
+				st.Nontriv(fmt.Sprintf("%s/%s/d%d/w%d/h%d/p%v/poor%v", dir, cs.route.kind, cs.route.depth(), cs.route.width(), cs.route.hops(), cs.provider, cs.poor > 0))
+				st.Sample(info)
+			}
+		} else {
+			st.Count(fmt.Sprintf("%s:err:%d", dir, m.class))
+		}
+	}
+	for _, cs := range e.corpus() {
+		do(cs)
+	}
+	for i := 0; i < n; i++ {
+		do(e.genCase())
+		if e.r.Chance(1, 15) {
+			if _, err := e.h.NextBlock(time.Second * time.Duration(1+e.r.Intn(30))); err != nil {
+				return fmt.Errorf("block failed: %w", err)
+			}
+		}
+	}
+	if _, err := cf.Write(outDir, "cases", 60); err != nil {
+		return err
+	}
+	return st.Write(outDir)
 }
